@@ -16,9 +16,10 @@ L2 of property C10: the durable side of `BTreeIndex` (rs/anda_db_btree/src/btree
                  bucket PUTs that hit nothing the committed metadata references, then the metadata
                  PUT, then DELETEs that hit nothing the new metadata references.
 * `flushStrict`  the further facts the code establishes (one fresh generation = metadata version,
-                 ascending bucket ids, every manifest entry is either written by this flush or
-                 carried over from the committed manifest, the deletions are exactly the replaced
-                 committed entries); checked on every observed flush by the driver.
+                 newer than every committed generation; every manifest entry is either written by
+                 this flush or carried over from the committed manifest; the deletions are, as a
+                 set, the replaced committed entries); checked on every observed flush by the driver.
+                 The order of the bucket PUTs among themselves and of the DELETEs is not constrained.
 
 Bucket payloads are lists `(key, ids)` (the harness sends them sorted by key; keys are unique in a
 payload, so the order is immaterial). Posting versions and the stored `posting.0` are ignored by the
@@ -137,11 +138,6 @@ def newMeta? : List Write → Option Meta
   | .putMeta m :: _ => some m
   | _ :: r => newMeta? r
 
-def ascending : List Nat → Bool
-  | [] => true
-  | [_] => true
-  | a :: b :: r => decide (a < b) && ascending (b :: r)
-
 /-- the in-memory manifest of an index loaded from (or in sync with) `D`: the committed manifest,
 or — after a legacy load — generation 0 for every bucket object that was found -/
 def committedEntries (D : Durable) : List Obj :=
@@ -158,14 +154,14 @@ def flushStrict (D : Durable) (ws : List Write) : Bool :=
   | some m =>
     let puts := putTargets ws
     let old := committedEntries D
+    let obsolete := old.filter (fun o => !m.manifest.contains o)
     puts.all (fun o => o.2 == m.version)
     && decide (0 < m.version)
-    && ascending (puts.map (·.1))
-    && ascending (m.manifest.map (·.1))
     && puts.all (fun o => m.manifest.contains o)
     && m.manifest.all (fun o => puts.contains o || old.contains o)
     && old.all (fun o => decide (o.2 < m.version))
-    && delTargets ws == old.filter (fun o => !m.manifest.contains o)
+    && (delTargets ws).all (fun o => obsolete.contains o)
+    && obsolete.all (fun o => (delTargets ws).contains o)
 
 -- ------------------------------------------------------------------------------------------
 -- store surgery used by the harness to build legacy / stale layouts (not part of the code)
